@@ -302,17 +302,24 @@ Definition uw_write (c : wcfg) (u : uw) (len : N) (fail : option N) : uw * N * b
        | None => ({| u_status := u_status u1; u_size := u_size u1 + len |}, len, false)
        end.
 
-(* ResponseRecorder *)
-Record rec := { r_status : Z; r_size : N }.
-Definition rec0 : rec := {| r_status := 200; r_size := 0 |}.
+(* ResponseRecorder: like net/http it records the status that commits the response — the first
+   WriteHeader with a final (non-informational) code, or the implicit 200 of the first Write;
+   later WriteHeader calls do not change it *)
+Record rec := { r_status : Z; r_size : N; r_wrote : bool }.
+Definition rec0 : rec := {| r_status := 200; r_size := 0; r_wrote := false |}.
+(* 1xx other than 101: an informational header, which does not commit the response *)
+Definition informational (code : Z) : bool :=
+  ((100 <=? code) && (code <=? 199) && negb (code =? 101))%Z.
 
 Definition step (c : wcfg) (s : uw * rec) (o : wop) : uw * rec :=
   let '(u, r) := s in
   match o with
-  | OWH code => (uw_wh u code, {| r_status := code; r_size := r_size r |})
+  | OWH code => (uw_wh u code,
+                 if negb (r_wrote r) && negb (informational code)
+                 then {| r_status := code; r_size := r_size r; r_wrote := true |} else r)
   | OW len fail =>
       let '(u', n, err) := uw_write c u len fail in
-      (u', if err then r else {| r_status := r_status r; r_size := r_size r + n |})
+      (u', {| r_status := r_status r; r_size := if err then r_size r else r_size r + n; r_wrote := true |})
   | OPanic => s
   end.
 (* run a handler script; true = it panicked *)
@@ -413,15 +420,10 @@ Definition site_serve (c : wcfg) (cs : bool) (tbl : list (Z * N)) (haserr hdrw :
 (* ---- shapes of handler scripts and configurations used by the theorems --------------------- *)
 Definition no_panic (ops : list wop) : bool :=
   forallb (fun o => match o with OPanic => false | _ => true end) ops.
-Definition no_wh (ops : list wop) : bool :=
-  forallb (fun o => match o with OWH _ => false | _ => true end) ops.
-(* casket's handler contract as far as the writer is concerned: at most one WriteHeader, and
-   only before the first Write *)
-Definition wb (ops : list wop) : bool :=
-  match ops with
-  | OWH _ :: r => no_wh r
-  | _ => no_wh ops
-  end.
+(* every WriteHeader code is a final one (the writer model commits on every WriteHeader: 1xx
+   informational headers are outside it, see the assumptions) *)
+Definition final_codes (ops : list wop) : bool :=
+  forallb (fun o => match o with OWH code => negb (informational code) | _ => true end) ops.
 (* what the log middleware adds itself when the handler returned [ret] *)
 Definition fallback (tbl : list (Z * N)) (ek : N) (ret : Z) : list wop :=
   if (400 <=? ret)%Z then err_ops tbl ek ret else [].
